@@ -414,7 +414,7 @@ def systematic_clients(ctx, b):
     vg = gen.VGen(33000)
     cases = []
     for P in ((2,) if ctx.quick() else (1, 2, 3)):
-        entries = [(("k%02d" % i).encode(), vg.val(450)) for i in range(4 if ctx.quick() else 7)]
+        entries = [(("k%02d" % i).encode(), vg.val(450)) for i in range(4 if ctx.quick() else 5)]
         for comp in (["zlib"] if ctx.quick() else ["zlib", "none"]):
             ref = os.path.join(wd, "ref_%s_%d.mtbl" % (comp, P))
             if os.path.exists(ref):
@@ -423,7 +423,7 @@ def systematic_clients(ctx, b):
             if rc != 0:
                 raise core.Infra("reference writer run failed: " + err[-500:])
             cases.append(("writer", P, comp, entries, ref))
-        adds = [(rng.choice([b"", b"a", b"ab", b"b"]), 2 * i + 1) for i in range(4 if ctx.quick() else 7)]
+        adds = [(rng.choice([b"", b"a", b"ab", b"b"]), 2 * i + 1) for i in range(4 if ctx.quick() else 5)]
         cases.append(("sorter", P, None, adds, None))
 
     def body(kind, P, comp, data, pth, tmp):
@@ -451,8 +451,8 @@ def systematic_clients(ctx, b):
                 for c_ in range(3):
                     plans.append((policy, [(s_, c_)], None))
             if not ctx.quick() and P == 1 and kind == "writer" and comp == "zlib":
-                for s_ in range(0, nsteps, 3):
-                    for s2 in range(s_ + 1, min(nsteps, s_ + 40), 2):
+                for s_ in range(0, nsteps, 4):
+                    for s2 in range(s_ + 1, min(nsteps, s_ + 30), 2):
                         plans.append((policy, [(s_, 0), (s2, 0)], None))
         lines, paths = [], []
         for k, (policy, decs, pth0) in enumerate(plans):
@@ -465,7 +465,7 @@ def systematic_clients(ctx, b):
         if os.path.exists(lg):
             os.unlink(lg)
         evs, rc, err = core.run_drv(b, "\n".join(lines) + "\n", wd, "sys%d" % ci, fork=True, timeout=3000, env={"VS_LOG": lg})
-        steps_of_run(ctx, wd, lg, P, kind == "writer", "y", every=5 if ctx.quick() else 1)
+        steps_of_run(ctx, wd, lg, P, kind == "writer", "y", every=5 if ctx.quick() else 3)
         recs = core.convert_events(evs)
         out = []
         for ex in core.split_execs(recs):
